@@ -85,6 +85,10 @@ def corner_docs() -> list[str]:
         # statements no other document of the corpus executed (coverage.py over the correspondence runs)
         "```\nx\n    ```\n```\n", "|a|b|c|\n|-||-|\n", "(c) <http://a.b/(c)> (tm) x +- <me@x.y>\n", '"a *b \'c* d\' e"\n',
         "*\"a* b\" 'c *d' e*\n", "~~a~~~~b~~\n",
+        # numeric character references at every boundary of the valid-code-point test
+        "&#0; &#8; &#9; &#11; &#12; &#13; &#14; &#31; &#x1F; &#32; &#127; &#128; &#159; &#160; &#xD7FF; &#xD800; &#xDFFF; &#xE000;\n",
+        "&#xFDCF; &#xFDD0; &#xFDEF; &#xFDF0; &#xFFFD; &#xFFFE; &#xFFFF; &#x1FFFE; &#x1FFFF; &#x10FFFD; &#x10FFFE; &#x10FFFF; &#x110000; &#1114112; &#x0B; &#x7f;\n",
+        "&#1234567; &#12345678; &#x123456; &#x1234567; &#X41; &#x; &#; &#xg; &amp &amp;; &AMP; &Amp;\n",
     ] + crossing_family()
 
 
